@@ -14,6 +14,7 @@ from typing import Dict, List, Optional
 
 from ..algebra import Rat, to_rat
 from ..index import AnalysisError, call_name, dotted, norm, norm1, names_in
+from ..sem import Sem, inline_private_helpers, unroll_finite_loops
 from .common import calls, enclosing, fctx, is_name, method_calls, stmts
 from .spin import chain_parts, channel_of_name, loop_owner_vars, owned_leaves, stride2_slots
 
@@ -49,13 +50,16 @@ def _rtok_owner(c: ast.Call, loopvars) -> Optional[str]:
 
 
 def check_owner_consistency(ctx, rule, fi, want_slots: bool):
-    """Shared by C33 (R33.1) and C25 (R25.1/2): R_to_k calls in `fi`."""
+    """Shared by C33 (R33.1) and C25 (R25.1/2): R_to_k calls in `fi` (private helpers inlined)."""
+    fi = unroll_finite_loops(ctx.index, inline_private_helpers(ctx.index, fi))
     cfg, du, pm = fctx(fi)
     loopvars = loop_owner_vars(fi.node)
     n = 0
     for c in method_calls(fi.node, "R_to_k"):
         owner = _rtok_owner(c, loopvars)
         if owner is None:
+            rule.expect(False, "", fi, c, f"{fi.short}: cannot tell whose R-vectors `{norm1(c.func)}` uses (receiver is neither self, a spin "
+                        f"channel of self, nor a loop variable over an enumerable list of channels)")
             continue
         if not c.args:
             raise AnalysisError(f"{fi.short}: R_to_k without positional matrix argument")
